@@ -3,9 +3,9 @@
    well-formed trees.  Part 3: every body operation preserves WF and refines
    its specification; lifting along body paths; histories.  Part 4: readers.
    Part 5: the frame and shape theorems of the specification (TreeSpecProofs.v)
-   transferred to the tree.  Part 6: what is false of the faithful model
-   (SetType, Clear, multi-literal labels).  The pointer level (L1) is in
-   TreeL1Proofs.v. *)
+   transferred to the tree.  Part 6: the former counterexamples (SetType,
+   Clear, multi-literal labels), now instances of the theorems since the code
+   was repaired.  The pointer level (L1) is in TreeL1Proofs.v. *)
 From HclV Require Import Base.Prelude Gen.TokenTypes Write.Format Write.Tree Write.TreeSpec Write.TreeSpecProofs.
 
 (* ======================================================================== *)
@@ -267,7 +267,7 @@ Inductive WFb : body -> Prop :=
     NoDup (keys ch) ->
     (forall i a, In (i, IAttr a) ch -> WF_attr a) ->
     (forall i k, In (i, IBlock k) ch -> WFk k) ->
-    WFb (mkBody ch items [])
+    WFb (mkBody ch items)
 with WFk : block -> Prop :=
 | WFk_intro lead iT t iL l mid bid bd post h1 h4 h6 :
     lead <> [] ->
@@ -277,7 +277,7 @@ with WFk : block -> Prop :=
     In h1 (ids lead) -> nil_or_in h4 (ids mid) -> nil_or_in h6 (ids post) ->
     WFb bd ->
     WFk (mkBlock (lead ++ (iT, KLeaf (LIdent t)) :: (iL, KLabels l) :: mid) bid bd post
-                 h1 iT iL h4 bid h6 []).
+                 h1 iT iL h4 bid h6).
 
 Definition WF (s : state) : Prop := WFb (root s) /\ Forall WFk (shelf s).
 
@@ -463,9 +463,9 @@ Proof.
 Qed.
 
 (* ---- blocks --------------------------------------------------------------------------- *)
-Lemma abs_block_shape lead iT t iL l mid bid bd post h1 h2 h3 h4 h5 h6 lb :
+Lemma abs_block_shape lead iT t iL l mid bid bd post h1 h2 h3 h4 h5 h6 :
   Forall (fun n => is_kident (snd n) = false) lead ->
-  abs_block (mkBlock (lead ++ (iT, KLeaf (LIdent t)) :: (iL, KLabels l) :: mid) bid bd post h1 h2 h3 h4 h5 h6 lb)
+  abs_block (mkBlock (lead ++ (iT, KLeaf (LIdent t)) :: (iL, KLabels l) :: mid) bid bd post h1 h2 h3 h4 h5 h6)
   = ABlock (kleaves_tokens lead) t (abs_labels l) (kleaves_tokens mid) (abs_body bd) (kleaves_tokens post).
 Proof.
   intros F. cbn [abs_block]. rewrite split_first_mid by (assumption || reflexivity). reflexivity.
@@ -517,7 +517,7 @@ Lemma block_set_labels_wf ls k :
 Proof.
   intros W. destruct (wfk_view k W) as (ld & t0 & l0 & md & tr & _ & _ & HL & _).
   inversion W as [lead iT t iL l mid bid bd post h1 h4 h6 Hl Fl N WL H1 H4 H6 Wb]. subst.
-  rewrite (abs_block_shape lead iT t iL l mid bid bd post h1 iT iL h4 bid h6 [] Fl).
+  rewrite (abs_block_shape lead iT t iL l mid bid bd post h1 iT iL h4 bid h6 Fl).
   unfold block_set_labels. rewrite HL. cbn [bind].
   assert (N1 := NoDup_app_l _ _ N).
   assert (NL : ~ In iL (ids (lead ++ [(iT, KLeaf (LIdent t))]))).
@@ -567,7 +567,7 @@ Qed.
 
 Definition abs_items (ch : list (Z * bitem)) : afile := map (fun n => abs_item (snd n)) ch.
 
-Lemma abs_body_unfold ch items limbo : abs_body (mkBody ch items limbo) = abs_items ch.
+Lemma abs_body_unfold ch items : abs_body (mkBody ch items) = abs_items ch.
 Proof. cbn [abs_body]. induction ch as [|n r IH]; [reflexivity|]. simpl. rewrite IH. reflexivity. Qed.
 
 Lemma abs_items_app l1 l2 : abs_items (l1 ++ l2) = abs_items l1 ++ abs_items l2.
@@ -591,22 +591,22 @@ Proof.
   - intros [H1 H2] j x [E|Hin]; [inversion E; subst; exact H1|eapply H2; exact Hin].
 Qed.
 
-Lemma wfb_children ch items limbo : WFb (mkBody ch items limbo) -> children_ok ch.
+Lemma wfb_children ch items : WFb (mkBody ch items) -> children_ok ch.
 Proof.
   intros W. inversion W; subst. intros i it Hin. destruct it; simpl; [exact I| |]; eauto.
 Qed.
 
-Lemma wfb_inv ch items limbo :
-  WFb (mkBody ch items limbo) ->
-  limbo = [] /\ NoDup (ids ch) /\ items = ids (filter is_item ch) /\ NoDup (keys ch) /\ children_ok ch.
+Lemma wfb_inv ch items :
+  WFb (mkBody ch items) ->
+  NoDup (ids ch) /\ items = ids (filter is_item ch) /\ NoDup (keys ch) /\ children_ok ch.
 Proof.
-  intros W. pose proof (wfb_children _ _ _ W) as C.
+  intros W. pose proof (wfb_children _ _ W) as C.
   inversion W as [ch0 it0 Nd Ei Nk Ca Ck]. subst. auto.
 Qed.
 
 Lemma wfb_build ch :
   NoDup (ids ch) -> NoDup (keys ch) -> children_ok ch ->
-  WFb (mkBody ch (ids (filter is_item ch)) []).
+  WFb (mkBody ch (ids (filter is_item ch))).
 Proof.
   intros N K C. constructor; try assumption; try reflexivity.
   - intros i a Hin. apply (C i (IAttr a) Hin).
@@ -690,9 +690,9 @@ Qed.
 Lemma body_get_attr_node_wf nm b :
   WFb b -> body_get_attr_node nm b = Ok (find_attr nm (b_ch b)).
 Proof.
-  intros W. pose proof W as W0. inversion W; subst. unfold body_get_attr_node. simpl.
-  rewrite app_nil_r.
-  apply (get_attr_node_wf nm [] ch); [exact H|]. eapply wfb_children. exact W0.
+  intros W. destruct b as [ch items]. destruct (wfb_inv _ _ W) as (Nd & -> & _ & C).
+  unfold body_get_attr_node. cbn [b_ch b_items].
+  apply (get_attr_node_wf nm [] ch); assumption.
 Qed.
 
 Lemma upd_first_abs nm g l1 i a l2 :
@@ -750,11 +750,11 @@ Lemma ids_mid_same {A} (l1 l2 : list (Z * A)) i x y :
 Proof. rewrite !ids_app. reflexivity. Qed.
 
 Lemma wfb_replace_child l1 i x y l2 items :
-  WFb (mkBody (l1 ++ (i, x) :: l2) items []) ->
+  WFb (mkBody (l1 ++ (i, x) :: l2) items) ->
   is_item (i, x) = is_item (i, y) -> item_ok y -> NoDup (keys (l1 ++ (i, y) :: l2)) ->
-  WFb (mkBody (l1 ++ (i, y) :: l2) items []).
+  WFb (mkBody (l1 ++ (i, y) :: l2) items).
 Proof.
-  intros W EI Oy K. destruct (wfb_inv _ _ _ W) as (_ & Nd & -> & _ & C).
+  intros W EI Oy K. destruct (wfb_inv _ _ W) as (Nd & -> & _ & C).
   rewrite (filter_item_mid l1 i x y l2 EI).
   apply wfb_build.
   - rewrite (ids_mid_same l1 l2 i y x). assumption.
@@ -763,33 +763,33 @@ Proof.
     apply children_ok_app. split; [exact C1|]. apply children_ok_cons. tauto.
 Qed.
 
-Lemma wfb_mid_notin l1 i x l2 items limbo :
-  WFb (mkBody (l1 ++ (i, x) :: l2) items limbo) -> ~ In i (ids l1) /\ ~ In i (ids l2).
+Lemma wfb_mid_notin l1 i x l2 items :
+  WFb (mkBody (l1 ++ (i, x) :: l2) items) -> ~ In i (ids l1) /\ ~ In i (ids l2).
 Proof.
-  intros W. destruct (wfb_inv _ _ _ W) as (_ & Nd & _).
+  intros W. destruct (wfb_inv _ _ W) as (Nd & _).
   rewrite ids_app in Nd. simpl in Nd. apply NoDup_mid_notin in Nd. exact Nd.
 Qed.
 
 Lemma set_attr_refines nm e : body_refines (body_set_attr nm e) (spec_set_attr nm e).
 Proof.
   intros b W. unfold body_set_attr. rewrite body_get_attr_node_wf by exact W. cbn [bind].
-  destruct b as [ch items limbo]. cbn [b_ch] in *.
-  destruct (wfb_inv _ _ _ W) as (-> & Nd & Ei & Nk & C).
+  destruct b as [ch items]. cbn [b_ch] in *.
+  destruct (wfb_inv _ _ W) as (Nd & Ei & Nk & C).
   rewrite abs_body_unfold.
   destruct (find_attr nm ch) as [[i a]|] eqn:F.
   - destruct (find_attr_Some _ _ _ _ F) as (l1 & l2 & -> & K & F1).
     assert (Wa : WF_attr a) by (apply (C i (IAttr a)); apply in_or_app; right; left; reflexivity).
     destruct (attr_set_expr_wf e a Wa) as (a' & Ha & Wa' & Ea & Ka).
     rewrite Ha. cbn [bind body_upd_node].
-    destruct (wfb_mid_notin _ _ _ _ _ _ W) as [N1 N2].
-    rewrite upd_id_mid by exact N1. simpl (upd_id _ _ []).
+    destruct (wfb_mid_notin _ _ _ _ _ W) as [N1 N2].
+    rewrite upd_id_mid by exact N1.
     eexists. split; [reflexivity|]. split.
     + apply (wfb_replace_child l1 i (IAttr a) (IAttr a') l2); [exact W|reflexivity|exact Wa'|].
       rewrite keys_app in *. simpl in *. rewrite Ka. assumption.
     + rewrite abs_body_unfold. unfold spec_set_attr.
       destruct (upd_first_abs nm (set_expr e) l1 i a l2 C F1 K) as (U1 & U2 & _).
       rewrite U2, U1. rewrite abs_items_app. simpl. rewrite Ea. reflexivity.
-  - cbn [body_append_item]. rewrite app_nil_r.
+  - cbn [body_append_item].
     destruct (new_attr_wf nm e) as (Wn & En & Kn).
     eexists. split; [reflexivity|]. split.
     + subst items.
@@ -818,13 +818,13 @@ Qed.
 Lemma rename_refines from to_ : body_refines (body_rename_attr from to_) (spec_rename_attr from to_).
 Proof.
   intros b W. unfold body_rename_attr. rewrite !body_get_attr_node_wf by exact W. cbn [bind].
-  destruct b as [ch items limbo]. cbn [b_ch] in *.
-  destruct (wfb_inv _ _ _ W) as (-> & Nd & Ei & Nk & C).
+  destruct b as [ch items]. cbn [b_ch] in *.
+  destruct (wfb_inv _ _ W) as (Nd & Ei & Nk & C).
   rewrite abs_body_unfold. unfold spec_rename_attr.
   destruct (find_attr from ch) as [[i a]|] eqn:F.
   - destruct (find_attr to_ ch) as [[i2 a2]|] eqn:F2.
     + (* conflict *)
-      exists (mkBody ch items []). split; [reflexivity|]. split; [exact W|].
+      exists (mkBody ch items). split; [reflexivity|]. split; [exact W|].
       rewrite abs_body_unfold.
       destruct (find_attr_Some _ _ _ _ F2) as (m1 & m2 & E2 & K2 & G2).
       assert (Hh : spec_has_attr to_ (abs_items ch) = true).
@@ -834,8 +834,8 @@ Proof.
       assert (Wa : WF_attr a) by (apply (C i (IAttr a)); apply in_or_app; right; left; reflexivity).
       destruct (attr_set_name_wf to_ a Wa) as (a' & Ha & Wa' & Ea & Ka).
       rewrite Ha. cbn [bind body_upd_node].
-      destruct (wfb_mid_notin _ _ _ _ _ _ W) as [N1 N2].
-      rewrite upd_id_mid by exact N1. simpl (upd_id _ _ []).
+      destruct (wfb_mid_notin _ _ _ _ _ W) as [N1 N2].
+      rewrite upd_id_mid by exact N1.
       eexists. split; [reflexivity|]. split.
       * apply (wfb_replace_child l1 i (IAttr a) (IAttr a') l2); [exact W|reflexivity|exact Wa'|].
         rewrite keys_app in *. simpl in *. rewrite Ka.
@@ -845,7 +845,7 @@ Proof.
         destruct (upd_first_abs from (set_name to_) l1 i a l2 C F1 K) as (U1 & U2 & _).
         destruct (has_attr_none to_ _ C F2) as [Hn _].
         rewrite U2, Hn, U1. simpl. rewrite abs_items_app. simpl. rewrite Ea. reflexivity.
-  - exists (mkBody ch items []). split.
+  - exists (mkBody ch items). split.
     + destruct (find_attr to_ ch) as [[? ?]|]; reflexivity.
     + split; [exact W|]. rewrite abs_body_unfold.
       destruct (has_attr_none from _ C F) as [Hn _]. rewrite Hn. reflexivity.
@@ -877,14 +877,14 @@ Qed.
 
 (* detaching the node of one child *)
 Lemma wfb_remove_child l1 i x l2 items :
-  WFb (mkBody (l1 ++ (i, x) :: l2) items []) ->
-  WFb (body_remove_node i (mkBody (l1 ++ (i, x) :: l2) items []))
-  /\ body_remove_node i (mkBody (l1 ++ (i, x) :: l2) items []) = mkBody (l1 ++ l2) (ids (filter is_item (l1 ++ l2))) [].
+  WFb (mkBody (l1 ++ (i, x) :: l2) items) ->
+  WFb (body_remove_node i (mkBody (l1 ++ (i, x) :: l2) items))
+  /\ body_remove_node i (mkBody (l1 ++ (i, x) :: l2) items) = mkBody (l1 ++ l2) (ids (filter is_item (l1 ++ l2))).
 Proof.
-  intros W. destruct (wfb_inv _ _ _ W) as (_ & Nd & -> & Nk & C).
-  destruct (wfb_mid_notin _ _ _ _ _ _ W) as [N1 N2].
-  assert (E : body_remove_node i (mkBody (l1 ++ (i, x) :: l2) (ids (filter is_item (l1 ++ (i, x) :: l2))) [])
-              = mkBody (l1 ++ l2) (ids (filter is_item (l1 ++ l2))) []).
+  intros W. destruct (wfb_inv _ _ W) as (Nd & -> & Nk & C).
+  destruct (wfb_mid_notin _ _ _ _ _ W) as [N1 N2].
+  assert (E : body_remove_node i (mkBody (l1 ++ (i, x) :: l2) (ids (filter is_item (l1 ++ (i, x) :: l2))))
+              = mkBody (l1 ++ l2) (ids (filter is_item (l1 ++ l2)))).
   { cbn [body_remove_node]. rewrite remove_id_mid by assumption.
     rewrite filter_item_remove by assumption. reflexivity. }
   split; [|exact E]. rewrite E. apply wfb_build.
@@ -898,8 +898,8 @@ Qed.
 Lemma remove_attr_refines nm : body_refines (body_remove_attr nm) (spec_remove_attr nm).
 Proof.
   intros b W. unfold body_remove_attr. rewrite body_get_attr_node_wf by exact W. cbn [bind].
-  destruct b as [ch items limbo]. cbn [b_ch] in *.
-  destruct (wfb_inv _ _ _ W) as (-> & Nd & Ei & Nk & C).
+  destruct b as [ch items]. cbn [b_ch] in *.
+  destruct (wfb_inv _ _ W) as (Nd & Ei & Nk & C).
   rewrite abs_body_unfold. unfold spec_remove_attr.
   destruct (find_attr nm ch) as [[i a]|] eqn:F.
   - destruct (find_attr_Some _ _ _ _ F) as (l1 & l2 & -> & K & F1).
@@ -916,9 +916,9 @@ Qed.
 Lemma append_block_refines k :
   WFk k -> body_refines (fun b => Ok (body_append_item (IBlock k) b)) (fun a => a ++ [abs_block k]).
 Proof.
-  intros Wk b W. destruct b as [ch items limbo].
-  destruct (wfb_inv _ _ _ W) as (-> & Nd & -> & Nk & C).
-  eexists. split; [reflexivity|]. cbn [body_append_item]. rewrite app_nil_r. split.
+  intros Wk b W. destruct b as [ch items].
+  destruct (wfb_inv _ _ W) as (Nd & -> & Nk & C).
+  eexists. split; [reflexivity|]. cbn [body_append_item]. split.
   - replace (ids (filter is_item ch) ++ [fresh ch])
       with (ids (filter is_item (ch ++ [(fresh ch, IBlock k)])))
       by (rewrite filter_app, ids_app; reflexivity).
@@ -938,9 +938,9 @@ Qed.
 
 Lemma append_raw_refines ts : body_refines (body_append_raw ts) (fun a => a ++ [ARaw ts]).
 Proof.
-  intros b W. destruct b as [ch items limbo].
-  destruct (wfb_inv _ _ _ W) as (-> & Nd & -> & Nk & C).
-  eexists. split; [reflexivity|]. rewrite app_nil_r. split.
+  intros b W. destruct b as [ch items].
+  destruct (wfb_inv _ _ W) as (Nd & -> & Nk & C).
+  eexists. split; [reflexivity|]. split.
   - replace (ids (filter is_item ch))
       with (ids (filter is_item (ch ++ [(fresh ch, ITokens ts)])))
       by (rewrite filter_app; simpl; rewrite app_nil_r; reflexivity).
@@ -958,10 +958,10 @@ Definition blocks_of (ch : list (Z * bitem)) : list (Z * block) :=
 Lemma blocks_of_app l1 l2 : blocks_of (l1 ++ l2) = blocks_of l1 ++ blocks_of l2.
 Proof. apply flat_map_app. Qed.
 
-Lemma body_blocks_wf ch items limbo :
-  WFb (mkBody ch items limbo) -> body_blocks (mkBody ch items limbo) = blocks_of ch.
+Lemma body_blocks_wf ch items :
+  WFb (mkBody ch items) -> body_blocks (mkBody ch items) = blocks_of ch.
 Proof.
-  intros W. destruct (wfb_inv _ _ _ W) as (-> & Nd & -> & _ & _).
+  intros W. destruct (wfb_inv _ _ W) as (Nd & -> & _ & _).
   unfold body_blocks. cbn [b_items b_ch]. rewrite set_list_filter by exact Nd.
   unfold blocks_of. clear. induction ch as [|[i it] r IH]; [reflexivity|].
   simpl. destruct it; simpl; rewrite IH; reflexivity.
@@ -1030,35 +1030,35 @@ Lemma upd_block_refines i f g :
   (forall k, WFk k -> exists k', f k = Ok k' /\ WFk k' /\ abs_block k' = g (abs_block k)) ->
   body_refines (body_upd_block i f) (guardZ i (upd_nth a_is_block (Z.to_nat i) g)).
 Proof.
-  intros Hf b W. destruct b as [ch items limbo].
+  intros Hf b W. destruct b as [ch items].
   unfold body_upd_block, guardZ, nthZ. rewrite body_blocks_wf by exact W.
-  destruct (wfb_inv _ _ _ W) as (-> & Nd & Ei & Nk & C).
+  destruct (wfb_inv _ _ W) as (Nd & Ei & Nk & C).
   destruct (i <? 0) eqn:Neg.
-  { exists (mkBody ch items []). auto. }
+  { exists (mkBody ch items). auto. }
   destruct (nth_error (blocks_of ch) (Z.to_nat i)) as [[id k]|] eqn:Hn.
   - destruct (nth_blocks_split _ _ _ _ Hn) as (l1 & l2 & -> & L).
     assert (Wk : WFk k) by (apply (C id (IBlock k)); apply in_or_app; right; left; reflexivity).
     destruct (Hf k Wk) as (k' & Hk & Wk' & Ek). rewrite Hk. cbn [bind body_upd_node].
-    destruct (wfb_mid_notin _ _ _ _ _ _ W) as [N1 N2].
-    rewrite upd_id_mid by exact N1. simpl (upd_id _ _ []).
+    destruct (wfb_mid_notin _ _ _ _ _ W) as [N1 N2].
+    rewrite upd_id_mid by exact N1.
     eexists. split; [reflexivity|]. split.
     + apply (wfb_replace_child l1 id (IBlock k) (IBlock k') l2); [exact W|reflexivity|exact Wk'|].
       rewrite keys_app in *. exact Nk.
     + rewrite !abs_body_unfold. rewrite <- L.
       destruct (abs_nth_block g l1 id k l2 C) as (U1 & _). rewrite U1.
       rewrite abs_items_app. simpl. rewrite Ek. reflexivity.
-  - exists (mkBody ch items []). split; [reflexivity|]. split; [exact W|].
+  - exists (mkBody ch items). split; [reflexivity|]. split; [exact W|].
     rewrite abs_body_unfold. destruct (abs_nth_none g ch _ C Hn) as (U1 & _). rewrite U1. reflexivity.
 Qed.
 
 Lemma remove_block_refines i :
   body_refines (body_remove_block i) (guardZ i (remove_nth_p a_is_block (Z.to_nat i))).
 Proof.
-  intros b W. destruct b as [ch items limbo].
+  intros b W. destruct b as [ch items].
   unfold body_remove_block, guardZ, nthZ. rewrite body_blocks_wf by exact W.
-  destruct (wfb_inv _ _ _ W) as (-> & Nd & Ei & Nk & C).
+  destruct (wfb_inv _ _ W) as (Nd & Ei & Nk & C).
   destruct (i <? 0) eqn:Neg.
-  { exists (mkBody ch items []). auto. }
+  { exists (mkBody ch items). auto. }
   destruct (nth_error (blocks_of ch) (Z.to_nat i)) as [[id k]|] eqn:Hn.
   - destruct (nth_blocks_split _ _ _ _ Hn) as (l1 & l2 & -> & L).
     destruct (wfb_remove_child _ _ _ _ _ W) as [W' E'].
@@ -1066,8 +1066,46 @@ Proof.
     rewrite E', !abs_body_unfold. rewrite <- L.
     destruct (abs_nth_block (fun x => x) l1 id k l2 C) as (_ & U2 & _). rewrite U2.
     rewrite abs_items_app. reflexivity.
-  - exists (mkBody ch items []). split; [reflexivity|]. split; [exact W|].
+  - exists (mkBody ch items). split; [reflexivity|]. split; [exact W|].
     rewrite abs_body_unfold. destruct (abs_nth_none (fun x => x) ch _ C Hn) as (_ & U2 & _). rewrite U2. reflexivity.
+Qed.
+
+(* Block.SetType: the type-name node is interior (a comments node precedes it,
+   the labels node follows), so ReplaceWith is the functional replace, and the
+   handle is set to the new node *)
+Lemma block_set_type_wf ty k :
+  WFk k ->
+  exists k', block_set_type ty k = Ok k' /\ WFk k' /\ abs_block k' = set_ty ty (abs_block k).
+Proof.
+  intros W. inversion W as [lead iT t iL l mid bid bd post h1 h4 h6 Hl Fl N WL H1 H4 H6 Wb]. subst.
+  rewrite (abs_block_shape lead iT t iL l mid bid bd post h1 iT iL h4 bid h6 Fl).
+  assert (E : forall x, ids (lead ++ (x, KLeaf (LIdent t)) :: (iL, KLabels l) :: mid)
+                        = ids lead ++ x :: iL :: ids mid)
+    by (intros x; rewrite ids_app; reflexivity).
+  assert (NT : ~ In iT (ids lead)).
+  { apply NoDup_app_l in N. rewrite E in N. apply NoDup_mid_notin in N. tauto. }
+  cbn [block_set_type]. rewrite find_id_mid by exact NT.
+  rewrite is_first_false by assumption.
+  rewrite repl_id_mid by exact NT.
+  set (j := fresh_of _).
+  assert (Hj : ~ In j (ids (lead ++ (iT, KLeaf (LIdent t)) :: (iL, KLabels l) :: mid) ++ bid :: ids post))
+    by (apply fresh_of_notin).
+  eexists. split; [reflexivity|]. split.
+  - constructor; try assumption.
+    assert (E2 : forall x, ids (lead ++ (x, KLeaf (LIdent (ident_tok ty))) :: (iL, KLabels l) :: mid)
+                           = ids lead ++ x :: iL :: ids mid)
+      by (intros x; rewrite ids_app; reflexivity).
+    rewrite E2. rewrite E in N, Hj. rewrite <- app_assoc in *. cbn [app] in *.
+    apply NoDup_mid_replace with (a := iT); assumption.
+  - rewrite abs_block_shape by exact Fl. reflexivity.
+Qed.
+
+(* Body.Clear: children and items are both emptied *)
+Lemma clear_refines : body_refines body_clear (fun _ => []).
+Proof.
+  intros b W. exists (mkBody [] []). split; [reflexivity|]. split.
+  - apply (wfb_build []); try constructor. intros ? ? [].
+  - rewrite abs_body_unfold. reflexivity.
 Qed.
 
 (* ---- nested bodies ------------------------------------------------------------------------ *)
@@ -1116,8 +1154,8 @@ Lemma nthZ_blocks_wf b i :
   | None => nthZ (a_blocks (abs_body b)) i = None
   end.
 Proof.
-  intros W. destruct b as [ch items limbo]. rewrite body_blocks_wf by exact W.
-  destruct (wfb_inv _ _ _ W) as (-> & Nd & Ei & Nk & C).
+  intros W. destruct b as [ch items]. rewrite body_blocks_wf by exact W.
+  destruct (wfb_inv _ _ W) as (Nd & Ei & Nk & C).
   rewrite abs_body_unfold. unfold nthZ. destruct (i <? 0); [reflexivity|].
   destruct (nth_error (blocks_of ch) (Z.to_nat i)) as [[id k]|] eqn:Hn.
   - destruct (nth_blocks_split _ _ _ _ Hn) as (l1 & l2 & -> & L).
@@ -1147,11 +1185,6 @@ Proof.
 Qed.
 
 (* ---- steps and histories ----------------------------------------------------------------------- *)
-(* The operations whose handling of the cached structures is sound.  Excluded:
-   SetType (discards the node returned by ReplaceWith) and Clear (leaves items). *)
-Definition safe_op (o : op) : Prop :=
-  match o with OSetType _ _ _ | OClear _ => False | _ => True end.
-
 Lemma on_root_refines s p f g :
   WF s -> body_refines f g ->
   exists s', on_root s p f = Ok s' /\ WF s' /\
@@ -1179,11 +1212,11 @@ Lemma nthZ_In {A} (l : list A) i x : nthZ l i = Some x -> In x l.
 Proof. unfold nthZ. destruct (i <? 0); [discriminate|]. apply nth_error_In. Qed.
 
 Theorem step_refines o s :
-  safe_op o -> WF s ->
+  WF s ->
   exists s', step o s = Ok s' /\ WF s' /\ abs s' = spec_step o (abs s).
 Proof.
-  intros So W. destruct o as [p nm e|p a b|p nm|p ty ls|p i|p n|p i ty|p i ls|p ts|p];
-    cbn [step spec_step]; try contradiction.
+  intros W. destruct o as [p nm e|p a b|p nm|p ty ls|p i|p n|p i ty|p i ls|p ts|p];
+    cbn [step spec_step].
   - apply on_root_refines; [exact W|apply set_attr_refines].
   - apply on_root_refines; [exact W|apply rename_refines].
   - apply on_root_refines; [exact W|apply remove_attr_refines].
@@ -1218,8 +1251,10 @@ Proof.
         -- unfold abs. cbn [f_pre root f_post shelf a_pre a_post a_shelf]. rewrite Er, map_remove_nth. reflexivity.
       * exists s. split; [reflexivity|]. split; [split; assumption|reflexivity].
     + rewrite HB. exists s. split; [reflexivity|]. split; [split; assumption|reflexivity].
+  - apply on_root_refines; [exact W|]. apply upd_block_refines. intros k Wk. apply block_set_type_wf. exact Wk.
   - apply on_root_refines; [exact W|]. apply upd_block_refines. intros k Wk. apply block_set_labels_wf. exact Wk.
   - apply on_root_refines; [exact W|apply append_raw_refines].
+  - apply on_root_refines; [exact W|apply clear_refines].
 Qed.
 
 Lemma run_cons o ops s : run (o :: ops) s = bind (step o s) (run ops).
@@ -1229,24 +1264,24 @@ Proof.
   - induction ops as [|o' r IH]; simpl; [reflexivity|exact IH].
 Qed.
 
-(* wf_preserved + refines_spec, for every history of safe operations: the run
-   never panics or corrupts a list, WF is an invariant, and the abstraction of
-   the final tree is the specification's run on the abstraction of the initial one *)
+(* wf_preserved + refines_spec, for EVERY history: the run never panics or
+   corrupts a list, WF is an invariant, and the abstraction of the final tree is
+   the specification's run on the abstraction of the initial one *)
 Theorem run_refines ops : forall s,
-  Forall safe_op ops -> WF s ->
+  WF s ->
   exists s', run ops s = Ok s' /\ WF s' /\ abs s' = spec_run ops (abs s).
 Proof.
-  induction ops as [|o r IH]; intros s So W.
+  induction ops as [|o r IH]; intros s W.
   - exists s. auto.
-  - inversion So; subst. destruct (step_refines o s H1 W) as (s1 & H & W1 & E1).
-    destruct (IH s1 H2 W1) as (s' & H' & W' & E').
+  - destruct (step_refines o s W) as (s1 & H & W1 & E1).
+    destruct (IH s1 W1) as (s' & H' & W' & E').
     exists s'. rewrite run_cons, H. cbn [bind]. split; [exact H'|]. split; [exact W'|].
     rewrite E'. unfold spec_run. simpl. rewrite E1. reflexivity.
 Qed.
 
 Theorem wf_preserved ops s :
-  Forall safe_op ops -> WF s -> exists s', run ops s = Ok s' /\ WF s'.
-Proof. intros So W. destruct (run_refines ops s So W) as (s' & H & W' & _). eauto. Qed.
+  WF s -> exists s', run ops s = Ok s' /\ WF s'.
+Proof. intros W. destruct (run_refines ops s W) as (s' & H & W' & _). eauto. Qed.
 
 (* ======================================================================== *)
 (* Part 4: the readers agree with the specification                          *)
@@ -1287,9 +1322,9 @@ Qed.
 Theorem attributes_agree b :
   WFb b -> body_attributes b = Ok (spec_attributes (abs_body b)).
 Proof.
-  intros W. destruct b as [ch items limbo].
-  destruct (wfb_inv _ _ _ W) as (-> & Nd & -> & Nk & C).
-  unfold body_attributes. cbn [b_ch b_limbo b_items]. rewrite app_nil_r, abs_body_unfold.
+  intros W. destruct b as [ch items].
+  destruct (wfb_inv _ _ W) as (Nd & -> & Nk & C).
+  unfold body_attributes. cbn [b_ch b_items]. rewrite abs_body_unfold.
   apply (attrs_of_wf [] ch); assumption.
 Qed.
 
@@ -1324,8 +1359,8 @@ Theorem get_attribute_agrees nm b :
   WFb b -> body_get_attribute nm b = Ok (spec_get_attribute nm (abs_body b)).
 Proof.
   intros W. unfold body_get_attribute. rewrite body_get_attr_node_wf by exact W. cbn [bind].
-  destruct b as [ch items limbo]. cbn [b_ch].
-  destruct (wfb_inv _ _ _ W) as (-> & Nd & -> & Nk & C).
+  destruct b as [ch items]. cbn [b_ch].
+  destruct (wfb_inv _ _ W) as (Nd & -> & Nk & C).
   rewrite abs_body_unfold. unfold spec_get_attribute.
   destruct (find_attr nm ch) as [[i a]|] eqn:F.
   - destruct (find_attr_Some _ _ _ _ F) as (l1 & l2 & -> & K & F1).
@@ -1364,12 +1399,12 @@ Fixpoint obs_blocks (F : block -> outcome (list Z * list (list Z) * bobs)) (item
       else obs_blocks F items r
   end.
 
-Lemma observe_unfold unesc ch items limbo :
-  observe unesc (mkBody ch items limbo)
-  = do ats <- attrs_of (ch ++ limbo) items;
+Lemma observe_unfold unesc ch items :
+  observe unesc (mkBody ch items)
+  = do ats <- attrs_of ch items;
     do bls <- obs_blocks (observe_block unesc) items ch; Ok (BObs ats bls).
 Proof.
-  cbn [observe]. destruct (attrs_of (ch ++ limbo) items); cbn [bind]; try reflexivity.
+  cbn [observe]. destruct (attrs_of ch items); cbn [bind]; try reflexivity.
   f_equal. induction ch as [|n r IH]; [reflexivity|].
   cbn [obs_blocks]. destruct (mem (fst n) items); [|exact IH].
   destruct (snd n); try exact IH. rewrite IH. reflexivity.
@@ -1383,17 +1418,17 @@ Qed.
 
 Fixpoint depth_b (b : body) : nat :=
   match b with
-  | mkBody ch _ _ =>
+  | mkBody ch _ =>
       S ((fix go (l : list (Z * bitem)) : nat :=
             match l with [] => O | n :: r => Nat.max (depth_i (snd n)) (go r) end) ch)
   end
 with depth_i (it : bitem) : nat :=
   match it with IBlock k => depth_k k | _ => O end
 with depth_k (k : block) : nat :=
-  match k with mkBlock _ _ bd _ _ _ _ _ _ _ _ => S (depth_b bd) end.
+  match k with mkBlock _ _ bd _ _ _ _ _ _ _ => S (depth_b bd) end.
 
-Lemma depth_child ch items limbo i k :
-  In (i, IBlock k) ch -> (depth_b (k_bd k) < depth_b (mkBody ch items limbo))%nat.
+Lemma depth_child ch items i k :
+  In (i, IBlock k) ch -> (depth_b (k_bd k) < depth_b (mkBody ch items))%nat.
 Proof.
   intros Hin. cbn [depth_b].
   induction ch as [|n r IH]; [contradiction|].
@@ -1406,9 +1441,9 @@ Theorem observe_agrees unesc : forall n b,
   (depth_b b < n)%nat -> WFb b -> observe unesc b = Ok (spec_observe unesc (abs_body b)).
 Proof.
   induction n as [|n IHn]; intros b D W; [lia|].
-  destruct b as [ch items limbo]. rewrite observe_unfold.
-  destruct (wfb_inv _ _ _ W) as (-> & Nd & -> & Nk & C).
-  rewrite app_nil_r. pose proof (attrs_of_wf [] ch Nd C) as HA. cbn [app] in HA. rewrite HA. cbn [bind].
+  destruct b as [ch items]. rewrite observe_unfold.
+  destruct (wfb_inv _ _ W) as (Nd & -> & Nk & C).
+  pose proof (attrs_of_wf [] ch Nd C) as HA. cbn [app] in HA. rewrite HA. cbn [bind].
   rewrite abs_body_unfold. unfold spec_observe.
   assert (HB : forall done rest, ch = done ++ rest ->
              obs_blocks (observe_block unesc) (ids (filter is_item ch)) rest
@@ -1427,7 +1462,7 @@ Proof.
       destruct (block_readers_agree unesc k Wk) as (l & t & ls & m & bd & tr & EK & HT & HL & b' & HB & Eb & Wb').
       rewrite EK, spec_observe_item_block.
       assert (D' : (depth_b (k_bd k) < n)%nat).
-      { pose proof (depth_child ch (ids (filter is_item ch)) [] i k Hin). lia. }
+      { pose proof (depth_child ch (ids (filter is_item ch)) i k Hin). lia. }
       inversion Wk as [lead iT t0 iL l0 mid bid bd0 post h1 h4 h6 Hl Fl N WL H1 H4 H6 Wb0]. subst k.
       cbn [observe_block]. rewrite HT, HL. cbn [bind]. rewrite Z.eqb_refl.
       unfold block_body in HB. cbn [k_hbody k_bid k_bd] in *. rewrite Z.eqb_refl in HB.
@@ -1465,8 +1500,8 @@ Proof.
   rewrite flat_map_app. simpl. rewrite flat_map_app. simpl. reflexivity.
 Qed.
 
-Lemma body_tokens_unfold ch items limbo :
-  body_tokens (mkBody ch items limbo) = flat_map (fun n => item_tokens (snd n)) ch.
+Lemma body_tokens_unfold ch items :
+  body_tokens (mkBody ch items) = flat_map (fun n => item_tokens (snd n)) ch.
 Proof. reflexivity. Qed.
 
 Lemma ser_item_block l t ls m bd tr :
@@ -1483,13 +1518,13 @@ Qed.
 Theorem ser_abs_body : forall n b, (depth_b b < n)%nat -> ser (abs_body b) = body_tokens b.
 Proof.
   induction n as [|n IHn]; intros b D; [lia|].
-  destruct b as [ch items limbo]. rewrite abs_body_unfold, body_tokens_unfold.
+  destruct b as [ch items]. rewrite abs_body_unfold, body_tokens_unfold.
   assert (H : forall i it, In (i, it) ch -> ser_item (abs_item it) = item_tokens it).
   { intros i it Hin. destruct it as [ts|a|k]; cbn [abs_item item_tokens].
     - reflexivity.
     - apply ser_abs_attr.
-    - pose proof (depth_child ch items limbo i k Hin) as D'.
-      destruct k as [pre bid bd post h1 h2 h3 h4 h5 h6 lb]. cbn [k_bd] in D'.
+    - pose proof (depth_child ch items i k Hin) as D'.
+      destruct k as [pre bid bd post h1 h2 h3 h4 h5 h6]. cbn [k_bd] in D'.
       assert (IH : ser (abs_body bd) = body_tokens bd) by (apply IHn; lia).
       cbn [abs_block block_tokens].
       destruct (split_first is_kident pre) as [[[lead [j x]] rest]|] eqn:E1; [|reflexivity].
@@ -1514,18 +1549,18 @@ Qed.
 (* Part 5: frame and shape, on the tree                                      *)
 (* ======================================================================== *)
 
-(* untouched_preserved: one safe step from a well-formed tree changes nothing
+(* untouched_preserved: one step from a well-formed tree changes nothing
    outside the addressed body and at most one item inside it (see
    TreeSpecProofs.spec_frame for the exact relation); stated on the abstraction,
    which by tokens_are_ser is the token stream of the file *)
 Theorem untouched_preserved o s :
-  safe_op o -> WF s ->
+  WF s ->
   exists s', step o s = Ok s' /\
     f_pre s' = f_pre s /\ f_post s' = f_post s /\
     (abs_body (root s') = abs_body (root s) \/
      edits_at (local_rel o) (op_path o) (abs_body (root s)) (abs_body (root s'))).
 Proof.
-  intros So W. destruct (step_refines o s So W) as (s' & H & _ & E).
+  intros W. destruct (step_refines o s W) as (s' & H & _ & E).
   exists s'. split; [exact H|].
   destruct (spec_frame o (abs s)) as (F1 & F2 & F3). rewrite <- E in F1, F2, F3.
   split; [exact F1|]. split; [exact F2|]. exact F3.
@@ -1534,14 +1569,14 @@ Qed.
 (* the same at token level: the tokens before and after the addressed body are
    the same tokens, and inside it the relation of the operation holds *)
 Corollary untouched_tokens o s :
-  safe_op o -> WF s ->
+  WF s ->
   exists s', step o s = Ok s' /\
     (body_tokens (root s') = body_tokens (root s) \/
      exists pre post b b', local_rel o b b' /\
        body_tokens (root s) = pre ++ ser b ++ post /\
        body_tokens (root s') = pre ++ ser b' ++ post).
 Proof.
-  intros So W. destruct (untouched_preserved o s So W) as (s' & H & _ & _ & [E|E]).
+  intros W. destruct (untouched_preserved o s W) as (s' & H & _ & _ & [E|E]).
   - exists s'. split; [exact H|]. left.
     rewrite <- (ser_abs_body (S (depth_b (root s')))) by lia.
     rewrite <- (ser_abs_body (S (depth_b (root s)))) by lia. rewrite E. reflexivity.
@@ -1552,24 +1587,24 @@ Proof.
     rewrite (ser_abs_body (S (depth_b (root s')))) in E2 by lia. auto.
 Qed.
 
-(* output_shape: for every history of safe operations whose arguments are
+(* output_shape: for every history of operations whose arguments are
    acceptable (expression tokens satisfy ExprOK, labels are quoted, raw tokens
    are blank lines/comments), starting from a well-formed tree whose items have
    the body-grammar shape (e.g. the empty file), the tokens of the body are in
    the body grammar GBody *)
 Theorem output_shape (ExprOK : list tok -> Prop) ops s :
   WF s -> ashaped ExprOK (abs s) ->
-  Forall safe_op ops -> Forall (op_ok ExprOK) ops ->
+  Forall (op_ok ExprOK) ops ->
   exists s', run ops s = Ok s' /\ GBody ExprOK (body_tokens (root s')).
 Proof.
-  intros W Sh So Ok. destruct (run_refines ops s So W) as (s' & H & _ & E).
+  intros W Sh Ok. destruct (run_refines ops s W) as (s' & H & _ & E).
   exists s'. split; [exact H|].
   pose proof (spec_run_shaped ExprOK ops (abs s) Ok Sh) as [Fr _]. rewrite <- E in Fr.
   apply shaped_in_grammar in Fr. unfold abs in Fr. cbn [a_root] in Fr.
   rewrite (ser_abs_body (S (depth_b (root s')))) in Fr by lia. exact Fr.
 Qed.
 
-Definition empty_state : state := mkState [] (mkBody [] [] []) [] [].
+Definition empty_state : state := mkState [] (mkBody [] []) [] [].
 
 Lemma empty_wf : WF empty_state.
 Proof.
@@ -1580,71 +1615,47 @@ Lemma empty_shaped ExprOK : ashaped ExprOK (abs empty_state).
 Proof. split; constructor. Qed.
 
 (* ======================================================================== *)
-(* Part 6: what is false of the faithful model                               *)
+(* Part 6: the former counterexamples, now instances of the theorems          *)
 (* ======================================================================== *)
+(* Earlier revisions of ast_block.go / ast_body.go made wf_preserved and
+   refines_spec FALSE for SetType (the node returned by ReplaceWith was dropped:
+   Type() stale, second SetType panicked) and for Clear (items not emptied:
+   Attributes() stale, a following SetAttribute lost).  The witness histories of
+   the former settype_refuted / clear_refuted are kept as regression examples:
+   on the repaired code they run without panic and agree with the
+   specification, as run_refines says they must. *)
 Definition nm_a : list Z := [97].
 Definition nm_b : list Z := [98].
 Definition nm_c : list Z := [99].
 Definition one_tok : list tok := [mkTok TokenNumberLit [49] 1 0].
 Definition two_tok : list tok := [mkTok TokenNumberLit [50] 1 0].
 
-(* Block.SetType discards the node returned by ReplaceWith.  History
-   AppendNewBlock("a", []) ; SetType("b") from the empty file: no panic yet and
-   the FILE is right (abs = specification), but the tree is no longer
-   well-formed (typeName points at a detached node), the reader Type() still
-   answers "a" where the specification — and the file — say "b", and a second
-   SetType panics ("can't replace node that is not in a list"). *)
-Definition settype_history : list op := [OAppendNewBlock [] nm_a []; OSetType [] 0 nm_b].
+Definition settype_history : list op :=
+  [OAppendNewBlock [] nm_a []; OSetType [] 0 nm_b; OSetType [] 0 nm_c].
 
-Theorem settype_refuted :
-  exists s2,
-    run settype_history empty_state = Ok s2 /\
-    abs s2 = spec_run settype_history (abs empty_state) /\
-    ~ WF s2 /\
-    (forall unesc, observe unesc (root s2) <> Ok (spec_observe unesc (a_root (abs s2)))) /\
-    (forall unesc, observe unesc (root s2) = Ok (BObs [] [(nm_a, [], BObs [] [])])) /\
-    (forall unesc, spec_observe unesc (a_root (abs s2)) = BObs [] [(nm_b, [], BObs [] [])]) /\
-    step (OSetType [] 0 nm_c) s2 = Panic.
+Example settype_history_ok :
+  exists s3,
+    run settype_history empty_state = Ok s3 /\
+    abs s3 = spec_run settype_history (abs empty_state) /\
+    wf_state_b s3 = true /\
+    (forall unesc, observe unesc (root s3) = Ok (BObs [] [(nm_c, [], BObs [] [])])).
 Proof.
-  eexists. split; [vm_compute; reflexivity|].
-  split; [vm_compute; reflexivity|].
-  split.
-  { intros [W _]. apply wfb_inv in W. destruct W as (_ & _ & _ & _ & C).
-    specialize (C 1 _ (or_introl eq_refl)). simpl in C. inversion C. }
-  split; [intros unesc; vm_compute; discriminate|].
-  split; [intros unesc; vm_compute; reflexivity|].
-  split; [intros unesc; vm_compute; reflexivity|].
-  vm_compute. reflexivity.
+  eexists. split; [vm_compute; reflexivity|]. split; [vm_compute; reflexivity|].
+  split; [vm_compute; reflexivity|]. intros unesc. vm_compute. reflexivity.
 Qed.
 
-(* Body.Clear empties the child list but not the item set.  History
-   SetAttribute("a", 1) ; Clear() ; SetAttribute("a", 2): after Clear the file is
-   empty but Attributes() still lists "a"; the third call then finds the orphaned
-   attribute through items and edits it, so the edit is lost: the file stays
-   empty where the specification says `a = 2`. *)
 Definition clear_history : list op := [OSetAttr [] nm_a one_tok; OClear []; OSetAttr [] nm_a two_tok].
 
-Theorem clear_refuted :
+Example clear_history_ok :
   exists s2 s3,
     run (firstn 2 clear_history) empty_state = Ok s2 /\
-    abs s2 = spec_run (firstn 2 clear_history) (abs empty_state) /\
-    ~ WF s2 /\
-    body_attributes (root s2) = Ok [(nm_a, one_tok)] /\ spec_attributes (a_root (abs s2)) = [] /\
+    body_attributes (root s2) = Ok [] /\ file_tokens s2 = [] /\
     run clear_history empty_state = Ok s3 /\
-    file_tokens s3 = [] /\
-    aser (spec_run clear_history (abs empty_state)) <> [] /\
-    abs s3 <> spec_run clear_history (abs empty_state).
+    abs s3 = spec_run clear_history (abs empty_state) /\
+    body_attributes (root s3) = Ok [(nm_a, two_tok)] /\
+    map (fun t => (ty t, bytes t)) (file_tokens s3) = [(TokenIdent, nm_a); (TokenEqual, [61]); (TokenNumberLit, [50]); (TokenNewline, [10])].
 Proof.
-  eexists. eexists. split; [vm_compute; reflexivity|].
-  split; [vm_compute; reflexivity|].
-  split.
-  { intros [W _]. apply wfb_inv in W. destruct W as (L & _). discriminate L. }
-  split; [vm_compute; reflexivity|].
-  split; [vm_compute; reflexivity|].
-  split; [vm_compute; reflexivity|].
-  split; [vm_compute; reflexivity|].
-  split; [vm_compute; discriminate|].
-  vm_compute. discriminate.
+  eexists. eexists. repeat split; vm_compute; reflexivity.
 Qed.
 
 (* Labels().  A quoted label is OQuote, literal tokens, CQuote; the scanner
@@ -1697,14 +1708,14 @@ Qed.
 (* The history theorem: everything at once                                   *)
 (* ======================================================================== *)
 Theorem history_correct unesc ops s :
-  WF s -> Forall safe_op ops ->
+  WF s ->
   exists s',
     run ops s = Ok s' /\ WF s' /\
     abs s' = spec_run ops (abs s) /\
     file_tokens s' = aser (spec_run ops (abs s)) /\
     observe unesc (root s') = Ok (spec_observe unesc (a_root (spec_run ops (abs s)))).
 Proof.
-  intros W So. destruct (run_refines ops s So W) as (s' & H & W' & E).
+  intros W. destruct (run_refines ops s W) as (s' & H & W' & E).
   exists s'. split; [exact H|]. split; [exact W'|]. split; [exact E|]. split.
   - rewrite tokens_are_ser, E. reflexivity.
   - rewrite (readers_agree unesc s' W'), E. reflexivity.
@@ -1773,18 +1784,17 @@ Proof.
   destruct H as [H|H]; [left; apply Z.eqb_eq; exact H|right; apply mem_In; exact H].
 Qed.
 
-Lemma body_wfb_unfold ch items limbo :
-  body_wfb (mkBody ch items limbo)
-  = is_nil limbo && nodupb (ids ch) && zlist_eqb items (ids (filter is_item ch))
+Lemma body_wfb_unfold ch items :
+  body_wfb (mkBody ch items)
+  = nodupb (ids ch) && zlist_eqb items (ids (filter is_item ch))
     && nodup_keysb (keys ch) && forallb (fun n => item_wfb (snd n)) ch.
 Proof. reflexivity. Qed.
 
 Theorem body_wfb_sound : forall n b, (depth_b b < n)%nat -> body_wfb b = true -> WFb b.
 Proof.
   induction n as [|n IHn]; intros b D H; [lia|].
-  destruct b as [ch items limbo]. rewrite body_wfb_unfold in H.
+  destruct b as [ch items]. rewrite body_wfb_unfold in H.
   repeat (apply andb_true_iff in H; destruct H as [H ?]).
-  destruct limbo; [|discriminate].
   apply zlist_eqb_eq in H2. subst items.
   rewrite forallb_forall in H0.
   apply wfb_build.
@@ -1792,8 +1802,8 @@ Proof.
   - apply nodup_keysb_sound. assumption.
   - intros i it Hin. specialize (H0 _ Hin). cbn [snd] in H0.
     destruct it as [ts|a|k]; cbn [item_ok item_wfb] in *; [exact I|apply attr_wfb_sound; exact H0|].
-    pose proof (depth_child ch (ids (filter is_item ch)) [] i k Hin) as D'.
-    destruct k as [pre bid bd post h1 h2 h3 h4 h5 h6 lb]. cbn [k_bd] in D'.
+    pose proof (depth_child ch (ids (filter is_item ch)) i k Hin) as D'.
+    destruct k as [pre bid bd post h1 h2 h3 h4 h5 h6]. cbn [k_bd] in D'.
     cbn [block_wfb] in H0.
     destruct (split_first is_kident pre) as [[[lead [iT x]] rest]|] eqn:E1; [|discriminate].
     destruct x as [x|x]; try discriminate. destruct x; try discriminate.
@@ -1802,7 +1812,6 @@ Proof.
     apply andb_true_iff in H0. destruct H0 as [H0 K6].
     apply andb_true_iff in H0. destruct H0 as [H0 K4].
     apply andb_true_iff in H0. destruct H0 as [H0 K1].
-    apply andb_true_iff in H0. destruct H0 as [H0 Klb].
     apply andb_true_iff in H0. destruct H0 as [H0 K5].
     apply andb_true_iff in H0. destruct H0 as [H0 K3].
     apply andb_true_iff in H0. destruct H0 as [H0 K2].
@@ -1810,7 +1819,6 @@ Proof.
     apply andb_true_iff in H0. destruct H0 as [Klead Knd].
     apply split_first_full in E1. destruct E1 as (E1 & F1 & _). subst pre.
     apply Z.eqb_eq in K2, K3, K5. subst h2 h3 h5.
-    destruct lb; [|discriminate].
     constructor.
     + destruct lead; [discriminate|discriminate].
     + exact F1.
@@ -1827,9 +1835,9 @@ Proof.
   unfold wf_state_b. intros H. apply andb_true_iff in H. destruct H as [H1 H2]. split.
   - apply (body_wfb_sound (S (depth_b (root s)))); [lia|exact H1].
   - rewrite forallb_forall in H2. apply Forall_forall. intros k Hk. specialize (H2 k Hk).
-    assert (W : WFb (mkBody [(1, IBlock k)] [1] [])).
-    { apply (body_wfb_sound (S (depth_b (mkBody [(1, IBlock k)] [1] [])))); [lia|].
+    assert (W : WFb (mkBody [(1, IBlock k)] [1])).
+    { apply (body_wfb_sound (S (depth_b (mkBody [(1, IBlock k)] [1])))); [lia|].
       rewrite body_wfb_unfold. cbn. rewrite H2. reflexivity. }
-    apply wfb_inv in W. destruct W as (_ & _ & _ & _ & C).
+    apply wfb_inv in W. destruct W as (_ & _ & _ & C).
     exact (C 1 (IBlock k) (or_introl eq_refl)).
 Qed.
